@@ -1527,7 +1527,14 @@ BTree_findRangeEnd(BTree *self, PyObject *keyarg, int low, int exclude_equal,
         pchild_is_btree = SameType_Check(self, pchild);
         if (i)
         {
+            /* Keep our own reference:  the node that owns this child is
+             * un-pinned below when we descend, and a key comparison further
+             * down can run arbitrary code (e.g. a cache sweep that turns that
+             * node into a ghost and releases its children).
+             */
+            Py_XDECREF(deepest_smaller);
             deepest_smaller = self->data[i-1].child;
+            Py_INCREF(deepest_smaller);
             deepest_smaller_is_btree = pchild_is_btree;
         }
 
@@ -1539,7 +1546,11 @@ BTree_findRangeEnd(BTree *self, PyObject *keyarg, int low, int exclude_equal,
             }
             self = BTREE(pchild);
             self_got_rebound = 1;
-            PER_USE_OR_RETURN(self, -1);
+            UNLESS (PER_USE(self))
+            {
+                Py_XDECREF(deepest_smaller);
+                return -1;
+            }
         }
         else
         {
@@ -1609,6 +1620,7 @@ Done:
     {
         PER_UNUSE(self);
     }
+    Py_XDECREF(deepest_smaller);
     return result;
 }
 
